@@ -271,6 +271,9 @@ func (db *SpecDB) loadFile(path string, assumed bool) error {
 			name := strings.TrimSpace(rest)
 			if prev, ok := db.Contracts[name]; ok {
 				cur = prev
+				if assumed {
+					cur.Assumed = true
+				}
 			} else {
 				cur = &Contract{Func: name, Flags: map[string]bool{}, LoopInv: map[int][]*Clause{}, LoopDec: map[int]*Clause{}, File: path, Line: l.line, Assumed: assumed, Opts: map[string]string{}}
 				db.Contracts[name] = cur
